@@ -4,10 +4,82 @@ package spec
 
 // Contracts for the verification machinery in /verif (comment-only; no executable code).
 
-//@ func (s *Spec) DFA() (*auto.DFA, map[grammar.Terminal][]auto.State, error)
+// ---- C03: the automaton of a string literal, and the combined scanner automaton ----
+//@ import auto "github.com/moorara/algo/automata"
+// roff(v, k): byte offset of the k-th character of v (characters are UTF-8 sequences of runeSz bytes)
+//@ ghost func roff(v string, k int) int
+//@ axiom forall v string :: {roff(v, 0)} roff(v, 0) == 0
+//@ axiom forall v string, k int :: {roff(v, k)} k > 0 ==> roff(v, k) == roff(v, k - 1) + runeSz(v, roff(v, k - 1))
+// literalDFA(d, v): d is the chain 0 -c0-> 1 -c1-> ... -c(n-1)-> n over exactly the characters of v, accepting in n only
+//@ spec func literalDFA(d *auto.DFA, v string) bool = d != nil && d.chain && d.Start == 0 && roff(v, d.n) == len(v) && onlyState(d.Final) == d.n
+//@   && (forall k int :: {d.wsym[k]} 0 <= k && k < d.n ==> d.wsym[k] == runeAt(v, roff(v, k)))
+
+// unesc(v): v with every backslash escape replaced by the character it stands for (docs/6-design.md: "any character
+// can be escaped ... within a string"): the identity on strings without a backslash, strictly shorter otherwise.
+//@ ghost func unesc(v string) string
+//@ axiom forall v string :: {unesc(v)} (forall k int :: {v[k]} 0 <= k && k < len(v) ==> v[k] != '\\') ==> unesc(v) == v
+//@ axiom forall v string, k int :: {unesc(v), v[k]} 0 <= k && k < len(v) && v[k] == '\\' ==> len(unesc(v)) < len(v)
+//@ func stringToDFA(value string) *auto.DFA
+//@   fresh-result
+//@   loop[0] invariant d != nil && fresh(d) && d.chain && d.Start == 0 && d.n == __i0 && curr == __i0 && next == __i0 + 1 && __off0 == roff(value, __i0)
+//@   loop[0] invariant forall k int :: {d.wsym[k]} 0 <= k && k < __i0 ==> d.wsym[k] == runeAt(value, roff(value, k))
+//@   ensures @its-own-characters (forall k int :: {value[k]} 0 <= k && k < len(value) ==> value[k] != '\\') ==> literalDFA(result, value)
+// the property: a literal denotes its characters WITH BACKSLASH ESCAPES RESOLVED (unesc: the documented meaning)
+//@   ensures @escapes-resolved literalDFA(result, unesc(value))
+
+// validPattern(v): v is accepted by the pattern compiler (nfa.Parse); regexToDFA fails exactly on the others.
+//@ ghost func validPattern(v string) bool
+//@ func regexToDFA(regex string) (*auto.DFA, error)
 //@   opaque
-//@   requires s != nil
-//@   ensures result2 == nil ==> result0 != nil
+//@   fresh-result
+//@   ensures (result1 != nil) == !validPattern(regex)
+//@   ensures result1 == nil ==> result0 != nil
+//@   ensures result1 != nil ==> result0 == nil && !typeis(result1, "*errors.MultiError")
+
+// inTM(tm, a, f): accepting state f is attributed to terminal a.
+//@ spec func inTM(tm map[grammar.Terminal][]auto.State, a grammar.Terminal, f auto.State) bool = exists q int :: 0 <= q && q < len(tm[a]) && tm[a][q] == f
+// litWinner(defs, d): d is the one string-literal definition among defs (all literal entries of defs are d).
+//@ spec func litWinner(defs []*TerminalDef, d *TerminalDef) bool = d != nil && !d.IsRegex && (exists k int :: 0 <= k && k < len(defs) && defs[k] == d)
+//@   && (forall k int :: {defs[k]} 0 <= k && k < len(defs) && !defs[k].IsRegex ==> defs[k] == d)
+
+//@ func (s *Spec) DFA$1(def *TerminalDef) bool
+//@   requires def != nil
+//@   ensures @is-literal result == !def.IsRegex
+
+//@ func (s *Spec) DFA$2(def *TerminalDef) string
+//@   requires def != nil
+
+//@ func (s *Spec) DFA() (*auto.DFA, map[grammar.Terminal][]auto.State, error)
+//@   requires s != nil && specWF(s)
+//@   callsite SelectMatch assumes @L-CALLBACK forall x *TerminalDef :: {selPred(box(arg1), box(x))} selPred(box(arg1), box(x)) == !x.IsRegex
+//@   loop[0] invariant errs != nil && fresh(errs) && errs.n >= 0 && len(ds) == len(s.Definitions)
+//@   loop[0] invariant forall k int :: {ds[k]} 0 <= k && k < __i0 && !s.Definitions[k].IsRegex ==> allocated(ds[k]) && literalDFA(ds[k], s.Definitions[k].Value)
+//@   loop[0] invariant forall k int :: {s.Definitions[k]} 0 <= k && k < __i0 && s.Definitions[k].IsRegex && !validPattern(s.Definitions[k].Value) ==> errs.n > 0
+//@   loop[0] invariant errs.n > 0 ==> (exists k int :: 0 <= k && k < __i0 && s.Definitions[k].IsRegex && !validPattern(s.Definitions[k].Value))
+//@   loop[1] invariant stateDefs != nil && (forall g auto.State, j int :: {stateDefs[g][j]} 0 <= j && j < len(stateDefs[g]) ==> stateDefs[g][j] != nil)
+//@   loop[2] invariant stateDefs != nil && (forall g auto.State, j int :: {stateDefs[g][j]} 0 <= j && j < len(stateDefs[g]) ==> stateDefs[g][j] != nil)
+// every definition listed for an accepting state g is one whose automaton accepts there (g is in its row of the state map)
+//@   loop[1] invariant forall g auto.State, j int :: {stateDefs[g][j]} 0 <= j && j < len(stateDefs[g]) ==> (exists q int, m int :: 0 <= q && q < __i1 && 0 <= m && m < len(stateMap[q]) && stateMap[q][m] == g && stateDefs[g][j] == s.Definitions[q])
+//@   loop[2] invariant forall g auto.State, j int :: {stateDefs[g][j]} 0 <= j && j < len(stateDefs[g]) ==> (exists q int, m int :: 0 <= q && q <= i && 0 <= m && m < len(stateMap[q]) && (q < i || m < __i2) && stateMap[q][m] == g && stateDefs[g][j] == s.Definitions[q])
+//@   loop[3] invariant (forall j int :: {finals[j]} 0 <= j && j < len(finals) ==> finals[j] in __vis3) && (forall g auto.State :: {g in __vis3} g in __vis3 ==> (exists j int :: 0 <= j && j < len(finals) && finals[j] == g))
+//@   loop[4] invariant errs != nil && fresh(errs) && errs.n >= 0 && termMap != nil
+// what ONE iteration over the accepting states does (F: the state visited, D: the definitions accepting there):
+//   one definition: F is appended to that terminal's states; several with exactly one literal among them: to the
+//   literal's; otherwise a conflict is recorded and nothing is attributed; no other terminal's list changes.
+//@   loop[4] step @single-definition-wins (let F = finals[__i4 - 1] in let D = stateDefs[F] in len(D) == 1 ==>
+//@       termMap[D[0].Terminal] == append(athead(termMap[D[0].Terminal]), F) && errs.n == athead(errs.n)
+//@       && (forall b grammar.Terminal :: {termMap[b]} b != D[0].Terminal ==> termMap[b] == athead(termMap[b])))
+//@   loop[4] step @tie-has-a-literal-winner (let F = finals[__i4 - 1] in let D = stateDefs[F] in len(D) > 1 && errs.n == athead(errs.n) ==> (exists d *TerminalDef :: {d.Terminal} litWinner(D, d)))
+//@   loop[4] step @literal-breaks-the-tie (let F = finals[__i4 - 1] in let D = stateDefs[F] in len(D) > 1 && errs.n == athead(errs.n) ==>
+//@       (forall d *TerminalDef :: {d.Terminal} litWinner(D, d) ==> termMap[d.Terminal] == append(athead(termMap[d.Terminal]), F)
+//@          && (forall b grammar.Terminal :: {termMap[b]} b != d.Terminal ==> termMap[b] == athead(termMap[b]))))
+//@   loop[4] step @conflict-only-if-real (let F = finals[__i4 - 1] in let D = stateDefs[F] in errs.n != athead(errs.n) ==> len(D) > 1
+//@       && ((forall k int :: {D[k]} 0 <= k && k < len(D) ==> D[k].IsRegex) || (exists k1 int, k2 int :: {D[k1], D[k2]} 0 <= k1 && k1 < k2 && k2 < len(D) && !D[k1].IsRegex && !D[k2].IsRegex))
+//@       && (forall b grammar.Terminal :: {termMap[b]} termMap[b] == athead(termMap[b])))
+//@   loop[4] step @nothing-for-no-definition (let F = finals[__i4 - 1] in len(stateDefs[F]) == 0 ==> errs.n == athead(errs.n) && (forall b grammar.Terminal :: {termMap[b]} termMap[b] == athead(termMap[b])))
+//@   ensures @accept-or-error result2 == nil ==> result0 != nil && result1 != nil
+//@   ensures @error-means-nothing result2 != nil ==> result0 == nil
+//@   ensures @invalid-pattern-is-an-error (exists k int :: 0 <= k && k < len(s.Definitions) && s.Definitions[k].IsRegex && !validPattern(s.Definitions[k].Value)) ==> result2 != nil
 
 // LALRParsingTable hands exactly (Grammar, Precedences) to the LALR(1) constructor (lookahead, not simple or
 // canonical), returns its table unchanged, and fails exactly when the constructor reports an unresolved conflict.
